@@ -1,4 +1,5 @@
-/-! GENERATED from ohkami/src/request/mod.rs: the bytes admitted in a request header name (closed ranges) -/
+/-! GENERATED from ohkami/src/request/mod.rs: the bytes admitted in a request header name, and in a header value (closed ranges) -/
 namespace Ohkami.Gen
 def fieldNameRanges : List (Nat × Nat) := [(33, 33), (35, 39), (42, 42), (43, 43), (45, 45), (46, 46), (94, 122), (124, 124), (126, 126), (48, 57), (65, 90)]
+def fieldValueRanges : List (Nat × Nat) := [(9, 9), (32, 126), (128, 255)]
 end Ohkami.Gen
